@@ -43,31 +43,16 @@ theorem C17_closed_complete_adapters {R : Type} :
   obtain ⟨h1, h2, _⟩ := C17_closed_complete F hflags.1 pre cl suf hpre hcl (Or.inl hflags.2)
   exact ⟨h1, h2⟩
 
-/-- Avro at full strength: whatever the history, after a closing call the container holds exactly the records whose
-    `write` returned normally. -/
-def C17_closed_complete_avro_statement : Prop :=
-  ∀ (pre : List (Op Nat)) (cl : Op Nat) (suf : List (Op Nat)),
-    (∀ op ∈ pre, isClosing op = false) → isClosing cl = true →
-    (run avroFlags Life.init (pre ++ cl :: suf)).disk =
-      (accepted avroFlags Life.init (pre ++ cl :: suf)).map Stored.full
-
-/-- False of model and code (known finding): `flush()` before the first `write()` makes AvroWriter start the container
-    with the schema "empty"; the first write then raises, and every later write is accepted but stored as a record
-    without fields. Witness: flush, write 1 (raises), write 2 (accepted), close → one hollow record on disk. -/
-theorem C17_closed_complete_avro_counterexample : ¬ C17_closed_complete_avro_statement := by
-  intro h
-  have := h [.flush, .write 1, .write 2] .close [] (by decide) (by decide)
-  revert this
-  decide
-
-/-- What holds for Avro: every history that does not flush before its first write (the fixed `close` flushes the
-    pending block — `Gen.avroCloseFlushes`; on the pinned revision this theorem was false for `[write, close]`). -/
-theorem C17_closed_complete_avro_partial {R : Type} (pre : List (Op R)) (cl : Op R) (suf : List (Op R))
-    (hpre : ∀ op ∈ pre, isClosing op = false) (hcl : isClosing cl = true)
-    (hP : flushBeforeFirstWrite pre = false) :
+/-- Avro at full strength: whatever the history — also one that flushes before its first write — after a closing
+    call the container holds exactly the records written before it, once each, in order, and nothing stays buffered.
+    (Holds since the two `fix:` commits: `close` flushes the pending block — `Gen.avroCloseFlushes` — and `flush`
+    before the first record no longer creates a placeholder container — `Gen.avroFlushCreatesWriter = false`; on the
+    pinned revision both `[write, close]` and `[flush, write, write, close]` were counterexamples.) -/
+theorem C17_closed_complete_avro {R : Type} (pre : List (Op R)) (cl : Op R) (suf : List (Op R))
+    (hpre : ∀ op ∈ pre, isClosing op = false) (hcl : isClosing cl = true) :
     (run avroFlags Life.init (pre ++ cl :: suf)).disk = (writesIn pre).map Stored.full ∧
     (run avroFlags Life.init (pre ++ cl :: suf)).buffer = [] := by
-  obtain ⟨h1, h2, _⟩ := C17_closed_complete avroFlags (by decide) pre cl suf hpre hcl (Or.inr hP)
+  obtain ⟨h1, h2, _⟩ := C17_closed_complete avroFlags (by decide) pre cl suf hpre hcl (Or.inl (by decide))
   exact ⟨h1, h2⟩
 
 /-- Empty outputs are valid: JSON, Avro and SQLite writers opened and closed without records — by `close`, by leaving
@@ -338,7 +323,7 @@ theorem C17_template_rotation_overwrites_without_sequence :
 namespace C17_nonvacuous
 example : (run avroFlags (Life.init : Life Nat) [.write 1, .write 2, .close, .close]).disk = [.full 1, .full 2] := by decide
 example : (run avroFlags (Life.init : Life Nat) [.write 1, .write 2]).buffer = [.full 1, .full 2] := by decide
-example : outcomes avroFlags (Life.init : Life Nat) [.write 1, .exit, .exit, .write 2] = [.ok, .ok, .raised, .raised] := by
+example : outcomes avroFlags (Life.init : Life Nat) [.write 1, .exit, .exit, .write 2] = [.ok, .ok, .ok, .raised] := by
   decide
 example : ((splitRun streamFlags (Split.init 2 : Split Nat) ([1, 2, 3, 4, 5].map Op.write ++ [Op.close])).parts.map
     (fun p => (p.1, p.2.disk))) = [(0, [.full 1, .full 2]), (1, [.full 3, .full 4]), (2, [.full 5])] := by decide
